@@ -47,7 +47,7 @@ pub fn spec(id: &str) -> Option<Spec> {
             Some(Spec {
                 id: "C09",
                 level: "exploration",
-                rule: "Each case is one (text, owned target, options) triple: from_str is the reference; from_slice and the str/slice closure helpers must agree; closures that skip the document (IgnoredAny) or ignore the deserializer must behave alike for string and reader input; the text with its leading BOM toggled must agree; from_reader and with_deserializer_from_reader must agree under each schedule of the case: ALL 2^(n-1) partitions when the text has at most 13 bytes, otherwise 1-byte reads, one read, a fixed k, random / boundary-hunter lists and two lists that together split at every interesting offset of the text (inside each multi-byte char, CR|LF, indicator|blank, inside --- / ..., at line breaks). Agreement = equal Debug value, or equal error variant and equal line and column. A quarter of the seeded cases tighten one budget counter or alias limit to 0..24 so that the events charged and the place of the breach are observable per entry point. Borrow cases (every 10th): a struct of &str fields over scalars whose style is known by construction (incl. anchored scalars lent through aliases and block scalars that are empty after chomping), and the same document into Cow<str> fields, which must give exactly the String result. One evaluation = one library call. Non-trivial = a reader execution in which at least one read returned fewer bytes than requested while data remained; distinct = distinct request-trace digests.".into(),
+                rule: "Each case is one (text, owned target, options) triple: from_str is the reference; from_slice and the str/slice closure helpers must agree; closures that skip the document (IgnoredAny) or ignore the deserializer must behave alike for string and reader input; the text with its leading BOM toggled must agree; from_reader and with_deserializer_from_reader must agree under each schedule of the case: ALL 2^(n-1) partitions when the text has at most 13 bytes, otherwise 1-byte reads, one read, a fixed k, random / boundary-hunter lists and two lists that together split at every interesting offset of the text (inside each multi-byte char, CR|LF, indicator|blank, inside --- / ..., at line breaks). Agreement = equal Debug value, or equal error variant and equal line and column. Four Spanned shapes are compared as well (line, column, character offset and length of the place of use and of definition of every node). A quarter of the seeded cases tighten one budget counter or alias limit to 0..24 so that the events charged and the place of the breach are observable per entry point. Borrow cases (every 10th): a struct of &str fields over scalars whose style is known by construction (incl. anchored scalars lent through aliases and block scalars that are empty after chomping), and the same document into Cow<str> fields, which must give exactly the String result. One evaluation = one library call. Non-trivial = a reader execution in which at least one read returned fewer bytes than requested while data remained; distinct = distinct request-trace digests.".into(),
                 assumptions: vec![
                     "invalid UTF-8 and UTF-16 input are outside the statement (\"the same UTF-8 text\")".into(),
                     "message text, spans and snippets are not compared across entry points".into(),
